@@ -131,7 +131,9 @@ def loosen(op, r):
     if op == "get_message_times_of_type":
         return [x for x in r if x[1][0] != "internal"]
     if op == "get_message_pairings":
-        return [[ch, [p for p in ps if p and p[0][0] != "internal"]] for ch, ps in r]
+        out = [[ch, [p for p in ps if p and p[0][0] != "internal"]] for ch, ps in r]
+        # a channel entry that only held INTERNAL markers exists or not depending on the marker's channel
+        return sorted([x for x in out if x[1]], key=lambda x: (x[0] is None, x[0]))
     if op == "get_interleaved_message_pairings":
         return [[ch, p] for ch, p in r if p and p[0][0] != "internal"]
     if op == "to_midi_track":
@@ -678,6 +680,8 @@ def _draw_knobs(rng, tier):
         "n_events": rng.randrange(3, 17) if tier == "quick" else rng.randrange(3, 41),
         "channels": (0,) if rng.random() < 0.75 else (0, 1),
         "n_slots": 1 if rng.random() < 0.75 else 2,
+        "p_repeat": rng.choice([0.0, 0.1, 0.25]),
+        "max_notes": rng.choice([2, 4, 8, 12, 12, 20] if tier == "quick" else [2, 4, 8, 12, 20, 40]),
     }
     return k
 
@@ -689,7 +693,8 @@ def _gen_init(rng, knobs):
         if r < 0.08:
             init.append({"spec": dict(music.EMPTY_SPEC), "mode": "empty"})
         else:
-            spec = music.gen_music(rng, max_notes=rng.choice([2, 4, 8, 12]), channels=knobs["channels"])
+            spec = music.gen_music(rng, max_notes=knobs["max_notes"], channels=knobs["channels"],
+                                   horizon=400 if knobs["max_notes"] <= 12 else 900)
             init.append({"spec": spec, "mode": rng.choice(MODES)})
     return init
 
@@ -806,6 +811,13 @@ def c04_run_one(seed, tier, index):
     else:
         for _ in range(knobs["n_events"]):
             ev = _gen_event(rng, world, knobs)
+            # the same operation twice in a row (fresh arguments) - a shape uniform choice rarely produces
+            if events and rng.random() < knobs["p_repeat"]:
+                prev = events[-1]
+                slot_prev = world.slots[prev.get("slot", 0) % len(world.slots)]
+                if prev["op"] in OPS and slot_prev.it is None and OPS[prev["op"]][0] in (MUT, VAL, DIRECT):
+                    ev = {"op": prev["op"], "slot": prev.get("slot", 0),
+                          "args": prev.get("args", {}) if rng.random() < 0.5 else OPS[prev["op"]][1](rng, slot_prev.seq)}
             events.append(ev)
             viol = world.apply(ev, len(events) - 1)
             if viol is not None or world.foreign:
